@@ -1343,7 +1343,6 @@ func (x *exec) execute(step int, c *call, chk checker) bool {
 	}
 	x.steps++
 	c.srcHasNull = strings.Contains(x.text, ": null")
-	c.foldNames = strings.ContainsAny(x.text+c.key+c.newKey+c.newName, "ςſ\u212aıǅǆǄ")
 	x.cur = c
 	defer func() { x.cur = nil }()
 	x.trace = append(x.trace, fmt.Sprintf("#%d %s", step, c))
